@@ -64,6 +64,10 @@ type (
 		Args []Expr
 	}
 	Raw struct{ Text string } // verbatim SQL fragment (the reference cannot evaluate it)
+	Agg struct {              // aggregate call: COUNT(*) when Col == "", else FN(col)
+		Fn  string // COUNT SUM MIN MAX AVG
+		Col string
+	}
 )
 
 func needTick(name string) bool {
@@ -147,7 +151,7 @@ func (e Lit) sql(sb *strings.Builder) {
 }
 func paren(sb *strings.Builder, e Expr) {
 	switch e.(type) {
-	case Col, Lit, Call:
+	case Col, Lit, Call, Agg:
 		e.sql(sb)
 	default:
 		sb.WriteByte('(')
@@ -255,6 +259,13 @@ func (e Call) sql(sb *strings.Builder) {
 	sb.WriteByte(')')
 }
 func (e Raw) sql(sb *strings.Builder) { sb.WriteString(e.Text) }
+func (e Agg) sql(sb *strings.Builder) {
+	if e.Col == "" {
+		sb.WriteString(e.Fn + "(*)")
+		return
+	}
+	sb.WriteString(e.Fn + "(" + Ident(e.Col) + ")")
+}
 
 func SQL(e Expr) string {
 	var sb strings.Builder
